@@ -26,7 +26,57 @@ def _replay_line(b):
                 out.append((clause, dict(detail, scale=sc, offset=off, order=perm)))
             if out:
                 return out
+    for clause, detail in _replay_nondyadic(b):
+        out.append((clause, dict(detail, scale=None, offset=None, order=None)))
     return out
+
+
+def _exact_chain(P, mode):
+    """the hull chain of an x-sorted float curve in exact rational arithmetic (monotone chain, strict turns)."""
+    from fractions import Fraction as Fr
+    Q = [(Fr(float(a)), Fr(float(c))) for a, c in P]
+    st = []
+    for i, p in enumerate(Q):
+        while len(st) >= 2:
+            a, c = Q[st[-2]], Q[st[-1]]
+            cr = (c[0] - a[0]) * (p[1] - a[1]) - (p[0] - a[0]) * (c[1] - a[1])
+            if (cr <= 0) if mode == "lower" else (cr >= 0):
+                st.pop()
+            else:
+                break
+        st.append(i)
+    return st
+
+
+def _replay_nondyadic(b):
+    """lower / upper chains with the ordinates mapped through y -> 0.1*y + 0.3 (rounded to binary64): equal ordinates stay
+    equal, so level runs stay EXACTLY collinear at a non-integer level, everything else is decided by the exact hull of the
+    rounded points.  An orientation test that is only algebraically equal to the cross product drifts here."""
+    import kneeliverse.convex_hull as ch
+    mode = b["mode"]
+    if mode not in ("lower", "upper"):
+        return []
+    P = np.array(b["pts"], float)
+    P[:, 1] = P[:, 1] * 0.1 + 0.3
+    fn = ch.graham_scan_lower if mode == "lower" else ch.graham_scan_upper
+    try:
+        got = [int(v) for v in np.asarray(fn(P)).tolist()]
+    except Exception as ex:
+        return [("completes", {"mode": mode, "raised": repr(ex)[:200], "map": "y -> 0.1*y + 0.3"})]
+    exp = _exact_chain(P.tolist(), mode)
+    if got != exp:
+        # numeric policy (DESIGN 3.2): a turn whose exact value is non-zero but within rounding noise of zero pins nothing
+        from fractions import Fraction as Fr
+        Q = [(Fr(float(a)), Fr(float(c))) for a, c in P.tolist()]
+        n = len(Q)
+        for i in range(n):
+            for j in range(i + 1, n):
+                for k in range(j + 1, n):
+                    cr = (Q[j][0] - Q[i][0]) * (Q[k][1] - Q[i][1]) - (Q[k][0] - Q[i][0]) * (Q[j][1] - Q[i][1])
+                    if cr != 0 and abs(cr) < Fr(1, 10 ** 9):
+                        return []
+        return [("chain-is-hull", {"mode": mode, "got": got, "expected": exp, "map": "y -> 0.1*y + 0.3"})]
+    return []
 
 
 def _replay_scaled(b, sc, off, perm=None):
